@@ -1,0 +1,48 @@
+//go:build verif
+
+// Contracts for package macat (comment-only; read by /verif/govc).
+
+package macat
+
+//@ func (*App).printMsg
+//@   borrows msg
+//@   before call:Write#1 assert arg0 == msg.Body
+//@   before call:WriteByte#1 assert arg0 == msg.Body[i] && isprint(msg.Body[i])
+//@   before call:WriteByte#1 assert 32 <= msg.Body[i] && msg.Body[i] <= 126
+//@   before call:WriteByte#2 assert arg0 == 46 && !isprint(msg.Body[i])
+//@   before call:WriteString#1 assert arg0 == "\n"
+//@   before call:WriteString#2 assert arg0 == "\\n" && msg.Body[i] == 10
+//@   before call:WriteString#3 assert arg0 == "\\r" && msg.Body[i] == 13
+//@   before call:WriteString#4 assert arg0 == "\\\\" && msg.Body[i] == 92
+//@   before call:WriteString#5 assert arg0 == "\\\"" && msg.Body[i] == 34
+//@   before call:WriteByte#3 assert arg0 == msg.Body[i] && isprint(msg.Body[i]) && msg.Body[i] != 10 && msg.Body[i] != 13 && msg.Body[i] != 92 && msg.Body[i] != 34
+//@   before call:WriteString#6 assert !isprint(msg.Body[i]) && msg.Body[i] != 10 && msg.Body[i] != 13 && msg.Body[i] != 92 && msg.Body[i] != 34
+//@   before call:WriteString#7 assert arg0 == "\n"
+//@   before call:Write#2 assert arg0 == enc
+//@   before call:Write#2 assert len(msg.Body) < 256 ==> len(enc) == 2 && enc[0] == 196 && enc[1] == len(msg.Body)
+//@   before call:Write#2 assert 256 <= len(msg.Body) && len(msg.Body) < 65536 ==> len(enc) == 3 && enc[0] == 197 && be16(enc, 1) == len(msg.Body)
+//@   before call:Write#2 assert 65536 <= len(msg.Body) && len(msg.Body) < 4294967296 ==> len(enc) == 5 && enc[0] == 198 && be32(enc, 1) == len(msg.Body)
+//@   before call:Write#3 assert arg0 == msg.Body && called("Write")
+//@   before call:Flush#1 assert true
+//@
+//@ func (*Duration).UnmarshalText
+//@   before return#1 assert true
+//@
+//@ func (*App).sendLoop
+//@   at call:SendMsg#1 set nsent = nsent + 1
+//@   before call:SendMsg#1 assert eqseq(msg.Body, a.sendData) && len(msg.Header) == 0
+//@   loop 1 invariant old(a.count) >= 0 ==> count >= 0 && nsent == old(a.count) - count
+//@   ensures isnil(result) && old(a.count) >= 0 ==> nsent == old(a.count)
+//@
+//@ func (*App).sendRecvLoop
+//@   before call:SendMsg#1 assert eqseq(msg.Body, a.sendData) && len(msg.Header) == 0
+//@
+//@ func (*App).replyLoop
+//@   before call:SendMsg#1 assert eqseq(msg.Body, a.sendData) && len(msg.Header) == 0
+//@
+//@ func (*App).getOptions$14
+//@   ensures a.countSet
+//@
+//@ func (*App).getOptions$15
+//@   ensures a.countSet ==> a.count == old(a.count)
+//@   ensures !a.countSet ==> a.count == -1
